@@ -1,5 +1,3 @@
-//go:build !vsreal
-
 // Package c04: cancelling an RPC's context unblocks every operation of that RPC.
 package c04
 
